@@ -191,3 +191,74 @@ void drv_hist(int tier, unsigned long seed, const char *extra) {
     rec_quiesce();
   }
 }
+
+/* ---- alias sweep for rational and float functions (C05: every mpq and mpf function) ---- */
+static int is_q(int k) { return k == K_QO || k == K_QI || k == K_QIO; }
+static int is_f(int k) { return k == K_FO || k == K_FI || k == K_FIO; }
+static int skip_qf(const api_fn *f) {
+  int i, nq = 0, nf = 0;
+  if (strncmp(f->name, "mpq_", 4) && strncmp(f->name, "mpf_", 4)) return 1;
+  if (has(f->name, "init") || has(f->name, "clear") || has(f->name, "_str") || has(f->name, "random") || has(f->name, "set_prec") || has(f->name, "set_default") ||
+      has(f->name, "pow_ui") || has(f->name, "get_prec")) return 1;
+  for (i = 0; i < f->nargs; i++) { if (is_q(f->kinds[i])) nq++; else if (is_f(f->kinds[i])) nf++;
+    else if (!(f->kinds[i] == K_U || f->kinds[i] == K_S || f->kinds[i] == K_B || f->kinds[i] == K_D || f->kinds[i] == K_ZI || f->kinds[i] == K_ZO)) return 1; }
+  return nq + nf == 0;
+}
+static void setq_rand(int i, int vclass) {           /* a canonical rational */
+  callf("drv_rndz", 6, gen_limbs(vclass), (int)rnd_below(NKINDS), (int)rnd_below(2)); callf("drv_rndz", 7, 1 + gen_limbs(vclass) / 2, 0, 0);
+  if (SIZ(Zp[7]) == 0) callf("mpz_set_ui", 7, (uint64_t)3);
+  callf("mpq_set_z", i, 6); callf("mpq_set_den", i, 7); callf("mpq_canonicalize", i);
+}
+static void setf_rand(int i, int vclass) {
+  mp_limb_t buf[64]; int n = 1 + (int)rnd_below(PREC(Fp[i]) + 1), k; char *h;
+  if (n > 60) n = 60; rnd_limbs(buf, n, (int)rnd_below(NKINDS)); if (!buf[n - 1]) buf[n - 1] = 1 + (rnd64() >> 1);
+  if (rnd_below(4) == 0) for (k = 0; k < n - 1 && k < 2; k++) buf[k] = 0;
+  if (rnd_below(9) == 0) { callf("drv_setf", i, "0", (int64_t)0); return; }
+  h = hex_of_limbs(buf, n, (int)rnd_below(2)); callf("drv_setf", i, h, (int64_t)((long)rnd_below(7) - 3)); free(h);
+}
+void drv_alias_qf(int tier, unsigned long seed, const char *extra) {
+  shard_t sh = shard_parse(extra); long x = 0; int fi;
+  static const int precs[] = {64, 128, 256, 640};
+  for (fi = 0; fi < api_count; fi++) {
+    const api_fn *f = &api_table[fi]; int pos[8], np = 0, i, part[8], k, vclass, rep, isF;
+    if (skip_qf(f) || !want(&sh, f->name)) continue;
+    isF = !strncmp(f->name, "mpf_", 4);
+    for (i = 0; i < f->nargs; i++) if (isF ? is_f(f->kinds[i]) : is_q(f->kinds[i])) pos[np++] = i;
+    if (np == 0) continue;
+    for (i = 0; i < np; i++) part[i] = 0;
+    for (;;) {
+      int ok = 1, a1, a2, nblocks = 0;
+      for (i = 0; i < np; i++) if (part[i] + 1 > nblocks) nblocks = part[i] + 1;
+      for (a1 = 0; a1 < np && ok; a1++) for (a2 = a1 + 1; a2 < np; a2++)
+        if (part[a1] == part[a2] && is_out(f->kinds[pos[a1]]) && is_out(f->kinds[pos[a2]]) && !has(f->name, "swap")) ok = 0;
+      if (ok) for (vclass = 0; vclass < 2; vclass++) for (rep = 0; rep < (tier ? 4 : 2); rep++) {
+        arg_t a[8]; int var[8], b, sig;
+        x++; if (!MINE(sh, x)) continue;
+        rec_reset("alias_qf", x, seed);
+        for (i = 0; i < 8; i++) callf("mpz_init", i);
+        for (i = 0; i < 4; i++) { if (isF) callf("mpf_init2", i, (uint64_t)precs[rnd_below(4)]); else callf("mpq_init", i); }
+        if (isF) callf("mpq_init", 0); else callf("mpf_init2", 0, (uint64_t)128);
+        memset(a, 0, sizeof a); for (i = 0; i < 8; i++) var[i] = 0;
+        for (i = 0; i < np; i++) var[pos[i]] = part[i];
+        for (b = 0; b < nblocks; b++) { if (isF) setf_rand(b, vclass); else setq_rand(b, vclass); }
+        for (i = 0; i < f->nargs; i++) { a[i].kind = f->kinds[i];
+          switch (f->kinds[i]) { case K_U: a[i].u = rnd_below(3) ? UIS[rnd_below(12)] : rnd64() >> rnd_below(64); if (has(f->name, "div_ui") && a[i].u == 0) a[i].u = 3; if (has(f->name, "cmp_ui") && !isF && i == 2 && a[i].u == 0) a[i].u = 1;
+              if (has(f->name, "set_ui") && !isF && i == 2 && a[i].u == 0) a[i].u = 1; if (has(f->name, "set_si") && !isF && i == 2 && a[i].u == 0) a[i].u = 1; if (has(f->name, "cmp_si") && !isF && i == 2 && a[i].u == 0) a[i].u = 1; break;
+            case K_S: a[i].s = SIS[rnd_below(11)]; break; case K_B: a[i].u = gen_b(f->name); break; case K_D: a[i].d = DS[rnd_below(11)]; break;
+            case K_ZI: callf("drv_rndz", 5, gen_limbs(vclass), 0, (int)rnd_below(2)); if (has(f->name, "set_den") && SIZ(Zp[5]) == 0) callf("mpz_set_ui", 5, (uint64_t)2); var[i] = 5; break;
+            case K_ZO: var[i] = 4; break; default: break; } }
+        /* domain: non-zero divisors, non-negative square roots (otherwise the arithmetic signal, which the specification also accepts) */
+        if (has(f->name, "sqrt") && isF) { int u = var[pos[np - 1]]; if (SIZ(Fp[u]) < 0) callf("mpf_abs", u, u); }
+        sig = 0;
+        { ret_t r; for (i = 0; i < f->nargs; i++) if (is_obj_kind(f->kinds[i])) a[i].idx = var[i]; sig = do_call(f, a, &r); if (f->rkind == RT_STR && r.str) rec_free_str(r.str); }
+        if (sig) continue;                                   /* execution tainted by the signal: abandoned (next reset) */
+        for (i = 0; i < 8; i++) callf("mpz_clear", i);
+        for (i = 0; i < 4; i++) callf(isF ? "mpf_clear" : "mpq_clear", i);
+        callf(isF ? "mpq_clear" : "mpf_clear", 0);
+        rec_quiesce();
+      }
+      for (k = np - 1; k > 0; k--) { int mx = 0; for (i = 0; i < k; i++) if (part[i] > mx) mx = part[i]; if (part[k] <= mx) { part[k]++; break; } part[k] = 0; }
+      if (k == 0) break;
+    }
+  }
+}
